@@ -44,6 +44,9 @@ def check(ctx):
     if legal is not None and (is_unknown(legal) or not isinstance(legal, dict)):
         legal = None
     ctx.attempt(_key_grammar, fi, pat, legal, sort_defs, legal_txt)
+    from .c12 import lowered_before_unpack      # the direction tests of the sort keys compare with lower-case letters
+    ctx.attempt(lowered_before_unpack, rule='ORDER')
+    ctx.attempt(_key_pipeline, fi, pat)
     ctx.attempt(_case_discipline, fi)
     ctx.attempt(_defaults, fi, env)
     ctx.attempt(_sign_tables, fi)
@@ -152,6 +155,48 @@ def _key_grammar(ctx, fi, pat, legal, sort_defs, legal_txt=None):
     t = ' '.join(norm(s) for s in walk_local(pk.node) if isinstance(s, ast.stmt)).replace('"', "'")
     ctx.shape("method = 'num'" in t and "mo.group('rev') is not None" in t, 'TBL',
               "parse_key: default method 'num', rev from the .rev group")
+
+
+def _key_pipeline(ctx, fi, pat):
+    """The statements that turn the caller's key string into the list of key
+    components (`key = key.lower()`, `re.sub(...)`, `keys = key.split(',')`)
+    are interpreted, in order, on legal keys in the spellings the docstring
+    allows (optional blanks anywhere, any case, 'reverse' for 'rev'); every
+    component that comes out must be a whole match of the key pattern -
+    otherwise a legal key raises ValueError."""
+    from ..streval import StrEval, Unsupported
+    construct = '_sort_custom: legal keys survive the normalisation (blanks, case, reverse)'
+    witnesses = ['i,s,r.ew', 'i, s, r.ew', 's .rev', 't. ns', 'r. we . reverse', 'S.Reverse', ' t.num ,s ', 'T.NS,R.EW.REV',
+                 's.rev , t.sn', 'r.num.reverse']
+    L = rx.Lang(pat, 0)
+    loop = next((st for st in fi.node.body if isinstance(st, ast.For) and norm(st.iter) == 'keys'), None)
+    if loop is None:
+        ctx.undecided('RX-LANG', construct, '`for k in keys` not found')
+        return
+    pre = [st for st in fi.node.body[:fi.node.body.index(loop)] if isinstance(st, ast.Assign) and len(st.targets) == 1
+           and isinstance(st.targets[0], ast.Name) and st.targets[0].id in ('key', 'keys')]
+    bad = None
+    try:
+        for w in witnesses:
+            env = {'key': w}
+            for st in pre:
+                env[st.targets[0].id] = StrEval(ctx, None, env=env).ev(st.value)
+            comps = env.get('keys')
+            if not isinstance(comps, list):
+                raise Unsupported('keys is not a list')
+            for c_ in comps:
+                if not (isinstance(c_, str) and L.fullmatch(c_.lower())):
+                    bad = (w, c_, comps)
+                    break
+            if bad:
+                break
+    except Unsupported as e:
+        ctx.undecided('RX-LANG', construct, f"pipeline not interpreted ({e})")
+        return
+    ctx.check(bad is None, 'RX-LANG', construct, f"{len(witnesses)} legal keys give valid components",
+              f"the legal key {bad[0]!r} is cut into {bad[2]}: the component {bad[1]!r} is not a key, so custom_sort / "
+              f"sort_tracts raise ValueError for a documented spelling" if bad else '',
+              key="RX-LANG|_sort_custom|pipeline", where=common.loc(fi, pre[-1]) if pre else fi.loc)
 
 
 def _case_discipline(ctx, fi):
